@@ -155,6 +155,26 @@ def corpus():
     out.append(bcase(hist("pack-0.92", [], [["add", b"f1", None, "a" * 63 + "\u00e9", "file", b"x\n", False]]), 0, 1))  # regression: 79-byte wrap inside a character (repaired by 6372b00)
     out.append(bcase(hist("pack-0.92", [], [["add", b"f1", None, "a" * 62 + "\u00e9", "file", b"x\n", False]]), 0, 1))  # one byte earlier: fine
     out.append(bcase(hist("2a", dirfile, [["mv", b"d1", None, "dir2"]]), 0, 1, bfmt="4"))
+    # a file changed in place below a directory that is renamed in the same step (single revision and roll-up)
+    modin = [["mv", b"d1", None, "dir2"], ["mod", b"f1", b"x\ny\n"]]
+    for fmt, bfmts in (("pack-0.92", ("0.9", "0.8", "4")), ("2a", ("0.9", "4"))):
+        for bf in bfmts:
+            out.append(bcase(hist(fmt, dirfile, modin), 0, 1, bfmt=bf))
+    three = {"g": [[], [0], [1]], "fmt": "pack-0.92", "style": 0, "meta": meta + [meta[1]],
+             "ops": [dirfile, [["mv", b"d1", None, "dir2"]], [["exec", b"f1", True]]]}
+    out.append(bcase(three, 0, 2))                                                       # roll-up 0..2
+    # a merge whose left-hand parent was installed 12 inventories earlier (RevisionInstaller's LRUCache(10))
+    side = 12
+    lg = [[], [0]] + [[1 + i] for i in range(side)] + [[1, 1 + side]]
+    lops = [dirfile, [["add", b"f2", None, "trunk.txt", "file", b"t\n", False]]]
+    lops += [[["add", b"s%d" % i, b"d1", "s%d" % i, "file", b"%d\n" % i, False]] + ([["mod", b"f1", b"side\n"]] if i == 3 else [])
+             for i in range(side)]
+    lops += [[["merge", 1]]]
+    lmeta = [["m%d" % i, "Joe <joe@example.com>", 1700000000 + 10 * i, 0, 0, []] for i in range(len(lg))]
+    longside = {"g": lg, "fmt": "2a", "style": 0, "ops": lops, "meta": lmeta}
+    for base in (None, 1):
+        out.append(bcase(longside, base, len(lg) - 1, bfmt="4"))
+    out.append({"k": "merge", "h": longside, "submit": 1, "tgt": len(lg) - 1, "mode": "2 bundle patch", "msg": None})
     # a v4 bundle that lost its last 30 bytes: read as a stream (the default of install_revisions) the bz2 data
     # just ends, the container is cut short and bzrformats' container reader never returns
     # (C40-v4-truncated-bundle-hangs); without streaming bz2 reports the damage
@@ -363,8 +383,13 @@ def _hist_cases(rng, tier):
         n = rng.choice([5, 7, 9] if quick else [5, 8, 10, 13])      # > 10 revisions: RevisionInstaller's LRUCache(10)
         if hi == 1:
             n = 13
-        spec = H.gen_spec(rng, n, fmt, odd=rng.random() < 0.15, ghosts=rng.random() < 0.2,
-                          big=(not quick and rng.random() < 0.1), ml_props=rng.random() < 0.08)
+        shape = "longside" if (hi == 2 or (not quick and hi % 6 == 5)) else "random"
+        if shape == "longside":
+            fmt = rng.choice(["2a", "2a", "1.14-rich-root"] if not quick else ["2a"])
+            n = rng.choice([11, 12, 14])
+        spec = H.gen_spec(rng, n, fmt, odd=rng.random() < 0.15, ghosts=(shape == "random" and rng.random() < 0.2),
+                          big=(not quick and rng.random() < 0.1), ml_props=rng.random() < 0.08, shape=shape)
+        n = len(spec["g"])
         g = spec["g"]
         pairs = []
         for tgt in range(n):
